@@ -28,7 +28,7 @@ TRACED = ('mido/ports.py', 'mido/parser.py', 'mido/tokenizer.py', 'mido/sockets.
           'mido/midifiles/meta.py')
 KINDS = ('locked_old', 'locked_new', 'echo', 'ioport', 'multi', 'multi_yield', 'pq', 'pair')
 MSG_SHAPES = ('note_on', 'control_change', 'program_change', 'pitchwheel', 'sysex', 'sysex', 'songpos', 'note_off',
-              'rt', 'sysex_raw')
+              'rt', 'sysex_raw', 'sysex0')
 BURST_SENDER = 99       # reset()/panic() bursts: identity (99, position in the burst)
 BURST_CONTROLS = {123: 0, 121: 1, 120: 2}
 RT_NAMES = ('clock', 'start', 'continue', 'stop', 'active_sensing', 'reset')
@@ -61,6 +61,9 @@ def make_msg(shape, sender, seq, pad):
         # a real-time message has no data field: the identity travels in `time` (kept by in-process ports,
         # dropped by byte-wise device ports, where such messages are counted per type instead)
         return mido.Message(RT_NAMES[pad % 6], time=sender * 1000 + seq + 1)
+    if shape == 'sysex0':
+        # a sysex without payload: like a real-time message it has no data field to carry the identity
+        return mido.Message('sysex', data=(), time=sender * 1000 + seq + 1)
     data = [sender, seq] + [(pad + i) % 128 for i in range(pad % 13)]
     if shape == 'sysex_raw':
         # the application vouches for the values itself and hands over its own mutable buffer
@@ -93,8 +96,17 @@ def ident(m):
         return (m.pos // 128, m.pos % 128)
     if t == 'sysex' and len(m.data) >= 2:
         return (m.data[0], m.data[1])
-    if t in RT_NAMES and isinstance(m.time, int) and m.time > 0:
+    if (t in RT_NAMES or (t == 'sysex' and len(m.data) == 0)) and isinstance(m.time, int) and m.time > 0:
         return (m.time // 1000, m.time % 1000 - 1)
+    return None
+
+
+def anon_kind(m):
+    """Name under which a message without data field is counted when its identity (time) did not travel."""
+    if m.type in RT_NAMES:
+        return m.type
+    if m.type == 'sysex' and len(m.data) == 0:
+        return 'sysex(empty)'
     return None
 
 
@@ -1141,7 +1153,7 @@ class PortsConc(BaseEngine):
         for si, seq, orig, inv, obj in sent:
             by_id[(si, seq)] = (orig, inv, obj)
         anon_wire = collections.Counter()
-        sent_rt = collections.Counter(orig.type for _, _, orig, _, _ in sent if orig.type in RT_NAMES)
+        sent_rt = collections.Counter(anon_kind(orig) for _, _, orig, _, _ in sent if anon_kind(orig))
         anon_rx = collections.Counter()
         # wire image: concatenation of complete encodings of sent messages
         for w in wires:
@@ -1166,8 +1178,8 @@ class PortsConc(BaseEngine):
                         end += 1
                 try:
                     m = mido.Message.from_bytes(log[pos:end])
-                    if m.type in RT_NAMES:
-                        anon_wire[m.type] += 1
+                    if anon_kind(m):
+                        anon_wire[anon_kind(m)] += 1
                         ok = True
                     else:
                         ok = ident(m) in by_id and m == by_id[ident(m)][0]
@@ -1194,8 +1206,8 @@ class PortsConc(BaseEngine):
             if not isinstance(m, mido.Message):
                 raise Violation(f'not-a-message@{kind}', f'{op} returned {res!r}')
             key = ident(m)
-            if key is None and m.type in RT_NAMES and not vars(m).get('time'):
-                anon_rx[m.type] += 1      # came through a byte-wise device: identity (time) not transmitted
+            if key is None and anon_kind(m) and not vars(m).get('time'):
+                anon_rx[anon_kind(m)] += 1      # came through a byte-wise device: identity (time) not transmitted
                 continue
             if key not in by_id:
                 raise Violation(f'corrupt-or-invented@{kind}', f'{th}.{op} returned {m!r}, which no sender sent '
@@ -1216,14 +1228,14 @@ class PortsConc(BaseEngine):
         if anon_rx:
             rx_rt = collections.Counter(anon_rx)
             for key, n in counts.items():
-                if by_id[key][0].type in RT_NAMES:
-                    rx_rt[by_id[key][0].type] += n
+                if anon_kind(by_id[key][0]):
+                    rx_rt[anon_kind(by_id[key][0])] += n
             for t in set(rx_rt) | set(sent_rt):
                 n = rx_rt[t]
                 if n > sent_rt[t] * n_sub or (n < sent_rt[t] * n_sub and not incomplete):
                     raise Violation(f'{"lost" if n < sent_rt[t] * n_sub else "duplicated"}@{kind}',
                                     f'{n} {t} message(s) received, {sent_rt[t]} sent (x{n_sub})')
-            anon_ids = {k for k, v in by_id.items() if v[0].type in RT_NAMES}
+            anon_ids = {k for k, v in by_id.items() if anon_kind(v[0])}
         for key in by_id:
             exp = n_sub
             if key in anon_ids:
